@@ -57,6 +57,8 @@ both('conds', ['relation p(i32, i32)', 'relation o(Option<i32>, i32)', 'relation
       'res(x, y) <-- foo(x, y) let s = x + y if s > 2, bar(y, z)',
       'q(*v) <-- p(x, y), o(w, y) if let Some(v) = w',
       'res(x, w) <-- foo(x, y), for w in 0..*y, if w > 1'], tags=['conds'])
+both('fresh_names', ['relation foo(i32, i32)', 'relation bar(i32)', 'relation out(i32, i32)'],
+     ['out(x, x_) <-- foo(x, x), bar(x_)', 'out(a, a_1) <-- foo(a, a), foo(a, a), bar(a_1)', 'out(w, expr_replaced_) <-- foo(w, w + 1), bar(expr_replaced_)'], tags=['repeated'])
 both('attached_let', ['relation foo(i32, i32)', 'relation bar(i32, i32)', 'relation res(i32, i32)'],
      ['res(x, y) <-- foo(x, a) let k = a + 1, bar(k, y)', 'res(x, y) <-- foo(x, a) let k = a + 1 if k > 3, bar(y, k)',
       'res(x, y) <-- foo(x, a) if let Some(k) = Some(a + 1), bar(k, y)'], tags=['conds'])
